@@ -230,8 +230,9 @@ def c07_streams(run, tier, seed):
         bins = {}
         extra = ""
         if rng.random() < 0.4:
-            ln = rng.choice([0, 1, 2, 20, 40])
-            bins["blob.bin"] = bytes(rng.randrange(256) for _ in range(ln))
+            ln = rng.choice([0, 1, 2, 20, 40, 0xFFF, 0x1000, 0x1001, 0x1800, 0x2345, 0x8000, 0x10001])
+            bins["blob.bin"] = bytes(rng.randrange(256) for _ in range(min(ln, 64))) * (ln // 64 + 1)
+            bins["blob.bin"] = bins["blob.bin"][:ln]
             extra = ".incbin 'blob.bin'\nafterbin:\n.dw blob_bin__size\n.dl blob_bin\n"
         txt = "".join(rng.choice(["a", "b", "c", " ", "X", "Y", "Z", "0", "9", "é", "\\'"]) for _ in range(rng.randrange(0, 6)))
         src = f"*=0x{base:06x}\nstart:\n.{kind} " + ", ".join(items) + f"\nafter:\n.ascii '{txt}'\nafter2:\n{extra}end:\n"
@@ -244,6 +245,15 @@ def c07_streams(run, tier, seed):
         run.correspond(s, pr, r, m)
         pipeline.oracle_c07(run, s, pr, r)
         pipeline.oracle_c02(run, s, pr, r)
+        if r["status"] == "ok" and r.get("nodes") is not None:
+            # the output really holds every directive's bytes, in order, from the offset of `start` on
+            import impl as _impl
+            want = b"".join(n.get("bytes") or b"" for n in r["nodes"])
+            p0 = run.spec_phys(pr, base)
+            got = sorted(dict(_impl.flatten(r["blocks"])).items())
+            if got != [(p0 + i, b) for i, b in enumerate(want)]:
+                s.violate({"src": pr["src"], "bins": {k: len(v) for k, v in pr["bins"].items()}}, f"{len(want)} bytes from offset {hex(p0)}: the directives' bytes in order",
+                          f"{len(got)} distinct offsets written", "the output does not hold exactly the bytes of the data directives / included file, each once, in order")
         if r["status"] == "ok":
             labs = dict(r["labels"])
             bus = __import__("impl").bus_of("low")
